@@ -139,7 +139,9 @@ class ExactAlgorithmCplex(ExactAlgorithmBase, PairwiseBasedAlgorithm):
                 # (and infinite loop obviously)
                 else:
                     # update the ranking to return
-                    new_dataset: Dataset = dataset.sub_problem_from_ids(scc_i_set)
+                    # all the rankings are kept, even the ones where no element of the scc is ranked: they have a
+                    # cost for each pair of elements of the scc
+                    new_dataset: Dataset = dataset.sub_problem_from_ids(scc_i_set, keep_all_rankings=True)
                     rankings: List[Ranking] = self._compute_consensus_rankings_with_optim(new_dataset, scoring_scheme,
                                                                                           False, True)
                     for bucket in rankings[0]:
